@@ -363,6 +363,8 @@ defvjp(anp.repeat, grad_repeat)
 def grad_tile(ans, x, reps):
     reps = [reps] if anp.isscalar(reps) else reps
     x_shape = anp.shape(x)
+    # np.tile prepends ones to reps when it is shorter than x.ndim
+    reps = [1] * (len(x_shape) - len(reps)) + list(reps)
 
     def vjp(g):
         for axis, rep in enumerate(reps):
